@@ -50,17 +50,19 @@ Definition parse_obs_eqb (x y : parse_obs) : bool :=
   | _, _ => false
   end.
 
-(* The SPECIFICATION's opinion on a spec, from the documented grammar of Spec.v only
-   ([read_field], [term_valid], [denote_field], [unrestricted]) - the bit-set code of the
-   model is not used. It has an opinion when the spec has no TZ=/CRON_TZ= prefix and is not
-   a descriptor, the number of fields fits the option set, and every one of the six
-   (normalised) fields reads as a list of documented items: then the parser must return the
-   six denoted sets (bit 63 = the field is unrestricted) if every item is valid (values in
-   range, ranges not inverted, steps positive), and an error otherwise. It also demands an
-   error - whatever the other fields look like - when some field contains an item the
-   documentation refuses by name ([refused_item]: unknown name, non-numeric value). [None] = no opinion
-   (syntax outside the documented grammar, e.g. "*-5", "+5", an empty list item: there only
-   the model is compared). *)
+(* The SPECIFICATION's opinion on a spec ([parse_doc_out] below), from the documented grammar
+   of Spec.v only ([read_field], [term_valid], [denote_field], [unrestricted]) - the bit-set
+   code of the model is not used.
+   Field lists: when the number of fields fits the option set and every one of the six
+   (normalised) fields reads as a list of documented items, the parser must return the six
+   denoted sets (bit 63 = the field is unrestricted) if every item is valid (values in range,
+   ranges not inverted, steps positive), and an error otherwise. It also demands an error -
+   whatever the other fields look like - when some field contains an item the documentation
+   refuses by name ([refused_item]: unknown name, non-numeric value), and when the number of
+   fields does not fit. Descriptors: the whole spec, see [doc_descriptor]. TZ prefix: unknown
+   zone or nothing after it: an error; else the rest of the spec. [None] = no opinion (syntax
+   outside the documented grammar, e.g. "*-5", "+5", an empty list item: there only the model
+   is compared). Proofs_Denote.parse_denotes: the model agrees wherever there is an opinion. *)
 Definition set_of (p : Z -> bool) : N :=
   fold_left (fun acc k => let x := Z.of_nat k in
                           if p x then N.lor acc (N.shiftl 1 (Z.to_N x)) else acc)
@@ -112,37 +114,80 @@ Definition refused_item (f : fspec) (e : list N) : bool :=
 Definition refused_field (f : fspec) (s : list N) : bool :=
   existsb (refused_item f) (split_on 44 s).
 
-Definition parse_doc_out (opts : Z) (spec : list N) : option parse_obs :=
-  if has_tz_prefix spec || prefixb (bs "@") spec || new_parser_panics opts then None
+(* a field list (what is left after the optional TZ prefix, not a descriptor) *)
+Definition doc_fields_out (opts : Z) (rest : list N) : option parse_obs :=
+  match normalize_fields (go_fields rest) opts with
+  | Ok [f0; f1; f2; f3; f4; f5] =>
+      if refused_field fs_second f0 || refused_field fs_minute f1 ||
+         refused_field fs_hour f2 || refused_field fs_dom f3 ||
+         refused_field fs_month f4 || refused_field fs_dow f5
+      then Some ObsErr
+      else
+      match doc_field fs_second f0, doc_field fs_minute f1, doc_field fs_hour f2,
+            doc_field fs_dom f3, doc_field fs_month f4, doc_field fs_dow f5 with
+      | Some a, Some b, Some c, Some d, Some e, Some f =>
+          match a, b, c, d, e, f with
+          | Some a', Some b', Some c', Some d', Some e', Some f' =>
+              Some (ObsOk a' b' c' d' e' f')
+          | _, _, _, _, _, _ => Some ObsErr
+          end
+      | _, _, _, _, _, _ => None
+      end
+  | Ok _ => None
+  | Err _ => Some ObsErr          (* the wrong number of fields for the option set *)
+  | Panic => None
+  end.
+
+(* '@every d': d truncated to whole seconds, at least one second (nanoseconds) *)
+Definition doc_every (d_ns : Z) : Z := Z.max 1 (d_ns / ns_per_s) * ns_per_s.
+
+(* A descriptor is the WHOLE remaining spec: one of the predefined names, each standing for
+   the six-field expression doc.go lists for it, or "@every " followed by ONE duration as
+   time.ParseDuration reads it (oracle [du]: its result on everything after "@every ").
+   Anything else that starts with '@' - unknown names, other capitalisation, words after the
+   descriptor, a second duration word - is refused. *)
+Definition six_fields : Z := 1 + 4 + 8 + 16 + 32 + 64.
+Definition doc_expr (e : list N) : parse_obs :=
+  match doc_fields_out six_fields e with Some o => o | None => ObsErr end.
+
+Definition doc_descriptor (du : option Z) (d : list N) : parse_obs :=
+  if eqb_listN d (bs "@yearly") || eqb_listN d (bs "@annually") then doc_expr (bs "0 0 0 1 1 *")
+  else if eqb_listN d (bs "@monthly") then doc_expr (bs "0 0 0 1 * *")
+  else if eqb_listN d (bs "@weekly") then doc_expr (bs "0 0 0 * * 0")
+  else if eqb_listN d (bs "@daily") || eqb_listN d (bs "@midnight") then doc_expr (bs "0 0 0 * * *")
+  else if eqb_listN d (bs "@hourly") then doc_expr (bs "0 0 * * * *")
+  else if prefixb (bs "@every ") d
+       then match du with Some ns => ObsEvery (doc_every ns) | None => ObsErr end
+  else ObsErr.
+
+(* the spec after the optional TZ prefix *)
+Definition parse_doc_body (opts : Z) (du : option Z) (rest : list N) : option parse_obs :=
+  if prefixb (bs "@") rest
+  then Some (if has opts o_descriptor then doc_descriptor du rest else ObsErr)
+  else doc_fields_out opts rest.
+
+(* The whole spec. [zo]: the result of time.LoadLocation on the name of the TZ=/CRON_TZ= prefix
+   (None = unknown zone); a prefix with no following field list is refused (current tree). *)
+Definition parse_doc_out (opts : Z) (zo : option zone) (du : option Z) (spec : list N)
+  : option parse_obs :=
+  if new_parser_panics opts then None
   else
     match spec with
-    | [] => None
+    | [] => Some ObsErr
     | _ =>
-        match normalize_fields (go_fields spec) opts with
-        | Ok [f0; f1; f2; f3; f4; f5] =>
-            if refused_field fs_second f0 || refused_field fs_minute f1 ||
-               refused_field fs_hour f2 || refused_field fs_dom f3 ||
-               refused_field fs_month f4 || refused_field fs_dow f5
-            then Some ObsErr
-            else
-            match doc_field fs_second f0, doc_field fs_minute f1, doc_field fs_hour f2,
-                  doc_field fs_dom f3, doc_field fs_month f4, doc_field fs_dow f5 with
-            | Some a, Some b, Some c, Some d, Some e, Some f =>
-                match a, b, c, d, e, f with
-                | Some a', Some b', Some c', Some d', Some e', Some f' =>
-                    Some (ObsOk a' b' c' d' e' f')
-                | _, _, _, _, _, _ => Some ObsErr
-                end
-            | _, _, _, _, _, _ => None
-            end
-        | _ => None
-        end
+        if has_tz_prefix spec then
+          match strip_tz Fixed (fun _ => zo) spec with
+          | Ok (_, rest) => parse_doc_body opts du rest
+          | Err _ => Some ObsErr
+          | Panic => None
+          end
+        else parse_doc_body opts du spec
     end.
 
 (* 2: the observation is not what the documented grammar demands; else 1: it differs from
    the model; else 0 *)
 Definition check_parse (c : parse_case) : Z :=
-  match parse_doc_out (pc_opts c) (pc_spec c) with
+  match parse_doc_out (pc_opts c) (pc_zone c) (pc_dur c) (pc_spec c) with
   | Some o => if parse_obs_eqb o (pc_obs c)
               then (if parse_obs_eqb (parse_model_out c) (pc_obs c) then 0 else 1)
               else 2
